@@ -185,6 +185,9 @@ func c07Program(c *checker, r *rng.R, p *Prog, how, known string, extra []Orders
 		}
 	}
 	c.rep.Hist("how", how)
+	for _, ft := range features(p) {
+		c.rep.Hist("features", ft)
+	}
 	c.rep.Hist("files", fmt.Sprint(len(p.Files)))
 	c.rep.Hist("orders-per-program", fmt.Sprint(bucket(len(orders))))
 	if exhaustive > 0 {
@@ -368,7 +371,7 @@ func diffSummary(a, b string) string {
 func runC07(c *checker, r *rng.R) {
 	n := 4000
 	if *tier == "thorough" {
-		n = 6000
+		n = 60000
 	}
 	for i := 0; i < n; i++ {
 		cfg := genCfg{maxFiles: 1 + r.Intn(4), maxTypes: 1 + r.Intn(7), maxConsts: r.Intn(5), maxServices: r.Intn(3),
@@ -480,5 +483,140 @@ func castOracle(root *compile.Module) []violation {
 	}
 	visit(root)
 	sort.Slice(out, func(i, j int) bool { return out[i].what < out[j].what })
+	return out
+}
+
+// features names the reference shapes a program exercises (for the evidence histogram).
+func features(p *Prog) []string {
+	var out []string
+	add := func(s string) {
+		for _, x := range out {
+			if x == s {
+				return
+			}
+		}
+		out = append(out, s)
+	}
+	// include graph
+	n := len(p.Files)
+	adj := make([][]int, n)
+	indeg := make([]int, n)
+	for i, f := range p.Files {
+		for _, inc := range f.Includes {
+			if j := p.fileIndex(i, inc.Path); j >= 0 {
+				adj[i] = append(adj[i], j)
+				indeg[j]++
+				if j == i {
+					add("self include")
+				}
+			}
+		}
+	}
+	for i := range adj {
+		if indeg[i] >= 2 {
+			add("file reached through several includes")
+		}
+		// cycle through i?
+		seen := map[int]bool{}
+		stack := append([]int(nil), adj[i]...)
+		for len(stack) > 0 {
+			x := stack[len(stack)-1]
+			stack = stack[:len(stack)-1]
+			if x == i {
+				add("include cycle")
+				break
+			}
+			if !seen[x] {
+				seen[x] = true
+				stack = append(stack, adj[x]...)
+			}
+		}
+	}
+	pos := map[*Def]int{}
+	for _, f := range p.Files {
+		for i, d := range f.Defs {
+			pos[d] = i
+		}
+	}
+	var walkT func(from *Def, t *TExpr)
+	walkT = func(from *Def, t *TExpr) {
+		if t == nil {
+			return
+		}
+		if t.Kind == "ref" {
+			dots := strings.Count(t.Name, ".")
+			if t.Target != nil {
+				switch {
+				case t.Target.File != from.File && dots >= 2 && !strings.Contains(t.Target.Name, "."):
+					add("transitive include-qualified reference (a.b.T)")
+				case t.Target.File != from.File:
+					add("include-qualified reference")
+				case strings.Contains(t.Target.Name, "."):
+					add("reference to a local dotted name")
+				case pos[t.Target] > pos[from]:
+					add("forward reference")
+				default:
+					add("backward reference")
+				}
+				if t.Target.Kind == 'T' {
+					if rt := rootExpr(t); rt != nil && rt.Kind == "ref" && rt.Target != nil && rt.Target.Kind == 'S' {
+						add("typedef chain ending in a struct")
+					}
+				}
+			}
+		}
+		walkT(from, t.A)
+		walkT(from, t.B)
+	}
+	var walkV func(v *CV)
+	walkV = func(v *CV) {
+		if v == nil {
+			return
+		}
+		if v.Kind == 'r' {
+			if v.Target != nil {
+				add("constant reference")
+			} else {
+				add("enum item reference")
+			}
+		}
+		for _, x := range v.L {
+			walkV(x)
+		}
+		for _, kv := range v.M {
+			walkV(kv[0])
+			walkV(kv[1])
+		}
+	}
+	for _, f := range p.Files {
+		for _, d := range f.Defs {
+			if strings.Contains(d.Name, ".") {
+				add("local dotted definition shadowing an include-qualified name")
+			}
+			walkT(d, d.Ty)
+			walkV(d.Val)
+			for _, fl := range d.Fields {
+				walkT(d, fl.Ty)
+				walkV(fl.Dflt)
+			}
+			if d.Kind == 'V' && d.ParentDef != nil {
+				if d.ParentDef.File != d.File {
+					add("parent service in another file")
+				} else {
+					add("parent service in the same file")
+				}
+			}
+			for _, fn := range d.Funcs {
+				walkT(d, fn.Ret)
+				for _, a := range fn.Args {
+					walkT(d, a.Ty)
+					walkV(a.Dflt)
+				}
+				for _, a := range fn.Excs {
+					walkT(d, a.Ty)
+				}
+			}
+		}
+	}
 	return out
 }
